@@ -7,6 +7,7 @@
 -/
 import XgiModel.C16.LemmasHPPM
 import XgiModel.C16.LemmasNet
+import XgiModel.C16.LemmasDCSat
 
 namespace Xgi.C16
 
@@ -236,6 +237,20 @@ theorem config_degree_le (k : List (Nat × Nat)) (m : Nat) (bump : List Nat) (ch
       · intro e he
         obtain ⟨a, b, c⟩ := cfgLoop_edges m choices (stubsOf k') es h e he
         exact ⟨a, b, fun x hx => by rw [← e1]; exact mem_stubsOf x k' (c x hx)⟩
+
+/-- the clause of the statement as written ("never exceed the prescribed degrees"), on its own domain: for a degree
+    sequence the function itself accepts as realizable (`sum(k) % m = 0`: no warning, no remainder adjustment) the generated
+    degree of every node is at most its prescribed degree - no `+ 1`.  For the other sequences the documented adjustment
+    ("adds an additional connection to random nodes", with a warning) applies and `config_degree_le` is the bound. -/
+theorem config_degree_le_realizable (k : List (Nat × Nat)) (m : Nat) (bump : List Nat) (choices : List (List Nat))
+    (es : List (List Nat)) (hk : (k.map (·.1)).Nodup) (hr : sumL (k.map (·.2)) % m = 0)
+    (h : configModel k m bump choices = some es) :
+    ∀ v d, (v, d) ∈ k → degIn v es ≤ d := by
+  obtain ⟨h1, h2, -⟩ := config_degree_le k m bump choices es hk h
+  have hb : bump = [] := h2 hr
+  subst hb
+  intro v d hvd
+  simpa using h1 v d hvd
 
 /-! ### simplicial complexes -/
 
@@ -672,6 +687,25 @@ theorem dcsbm_no_exception (k1 k2 : List (Nat × Nat)) (g1 g2 : Nat → Nat) (om
     (rs : List Rat) (x : Err) : dcsbm k1 k2 g1 g2 omega gaps rs ≠ .err x := by
   unfold dcsbm
   exact dcPatches_no_err _ _ g1 g2 omega _ _ _ gaps rs x (dcPatchList_edges _ _ g1 g2)
+
+/-- the `min(p, 1)` clipping branch of `dcsbm_hypergraph`: a node `u` of community `g1 u` whose probability
+    `k1[u] * k2[v] * omega[g1 u, b] / (kappa1[g1 u] * kappa2[b])` reaches 1 for every edge label `v` of community `b` is put into
+    every edge of that community, whatever the draws (`0 ≤ r < 1`) -/
+theorem dcsbm_saturated (k1 k2 : List (Nat × Nat)) (g1 g2 : Nat → Nat) (omega : Nat → Nat → Nat) (gaps : List Nat) (rs : List Rat)
+    (pairs : List (Nat × Nat)) (g : List Nat) (r : List Rat) (hk1 : (k1.map (·.1)).Nodup) (hk2 : (k2.map (·.1)).Nodup)
+    (hr : ∀ x ∈ rs, 0 ≤ x ∧ x < 1) (h : dcsbm k1 k2 g1 g2 omega gaps rs = .ok (pairs, g, r))
+    (u du b : Nat) (hu : (u, du) ∈ k1) (hK : 0 < kappa k1 g1 (g1 u) * kappa k2 g2 b)
+    (hsat : ∀ e ∈ k2, g2 e.1 = b → kappa k1 g1 (g1 u) * kappa k2 g2 b ≤ du * e.2 * omega (g1 u) b) :
+    ∀ e ∈ k2, g2 e.1 = b → (e.1, u) ∈ pairs := by
+  intro e he hb
+  unfold dcsbm at h
+  have hu' : (u, du) ∈ sortByDeg k1 := (mem_sortByDeg k1 _).mpr hu
+  have he' : e ∈ sortByDeg k2 := (mem_sortByDeg k2 _).mpr he
+  have hpatch := mem_dcPatchList (sortByDeg k1) (sortByDeg k2) g1 g2 (u, du) e hu' he'
+  rw [hb] at hpatch
+  exact dcPatches_saturated _ _ g1 g2 omega _ _ (nodup_keys_sortByDeg k1 hk1) (nodup_keys_sortByDeg k2 hk2) _ gaps rs pairs g r hr h
+    (g1 u, b) hpatch (u, du) hu' rfl
+    (fun e2 he2 hb2 => dcProb_one _ _ du e2.2 hK (hsat e2 ((mem_sortByDeg k2 _).mp he2) hb2)) e he' hb
 
 /-! ### uniform_HPPM and uniform_erdos_renyi_hypergraph(p_type="degree"): the probability arithmetic -/
 
@@ -1148,6 +1182,8 @@ example : hsbm 2 [2, 2] [.one, .mid, .mid, .one] [2, 9, 1, 5] =
 example : completeMax 3 1 true = [[0], [1], [2], [0, 1], [0, 2], [1, 2]] := by decide
 example : configModel [(1, 1), (2, 2), (3, 3), (4, 3)] 3 [] [[0, 1, 3], [0, 1, 2], [2, 1, 0]] = some [[1, 2, 3]] := by decide
 example : configModel [(0, 2), (1, 1)] 2 [1] [[3, 0], [1, 0]] = some [[1, 0], [1, 0]] := by decide
+/-- realizable sequence (9 = 3 * 3, no bump): the hypothesis of `config_degree_le_realizable` holds on a run that makes an edge -/
+example : sumL ([(1, 1), (2, 2), (3, 3), (4, 3)].map (·.2)) % 3 = 0 := by decide
 example : closure [[0, 1, 2]] = [[1, 2], [0, 2], [0, 1], [0, 1, 2]] := by decide
 example : flagComplex 4 (fun a b => (a, b) ≠ (2, 3)) 2 = [[0, 1], [0, 2], [0, 3], [1, 2], [1, 3], [0, 1, 2], [0, 1, 3]] := by decide
 example : flagPromoted 4 (fun _ _ => true) 2 [[0, 1, 3]] =
@@ -1169,6 +1205,10 @@ example : dcsbm [(0, 2), (1, 3), (2, 1)] [(7, 2), (8, 3)] (fun i => i % 2) (fun 
     [1, 5, 5] [1/4, 1/2, 1/8] = .ok ([(7, 1), (8, 0), (8, 2)], [], []) := by decide +kernel
 example : dcsbm [(0, 0), (1, 0)] [(7, 0)] (fun _ => 0) (fun _ => 0) (fun _ _ => 3) [1, 1] [1/2] = .ok ([], [], [1/2]) := by
   decide +kernel
+-- dcsbm_saturated is not vacuous: in the run above node 0 (degree 2, community 0) is saturated for the edge community 0
+-- (kappa1 = 3, kappa2 = 3, omega = 6: 9 ≤ 2 * 3 * 6) and is in its only edge 8
+example : kappa [(0, 2), (1, 3), (2, 1)] (fun i => i % 2) 0 * kappa [(7, 2), (8, 3)] (fun i => i % 2) 0 = 9 := by decide
+example : ((8, 0) : Nat × Nat) ∈ [((7, 1) : Nat × Nat), (8, 0), (8, 2)] := by decide
 example : hppm 4 2 2 (1/2) (1/2) [1, 3, 9, 2, 9, 1, 9, 9] = .ok ([[0, 3], [2, 0]], []) := by decide +kernel
 example : hppmTensor 2 (hppmIn 4 2 2 (1/2) (1/2)) (hppmOut 4 2 2 (1/2)) = [3/8, 1/8, 1/8, 3/8] := by decide +kernel
 example : hppm 4 2 2 (3/2) (1/2) [] = .err .xgi := by decide +kernel
